@@ -103,7 +103,9 @@ class PDCD_WS(BaseSolver):
         # this choice of steps yield in practice a convergent algorithm
         # with better speed of convergence
         dual_step = 1 / norm(X, ord=2)
-        primal_steps = 1 / norm(X, axis=0, ord=2)
+        norm_cols = norm(X, axis=0, ord=2)
+        # null columns have a zero pseudo-gradient: any finite step works
+        primal_steps = 1 / np.where(norm_cols == 0., 1., norm_cols)
 
         # primal vars
         w = np.zeros(n_features) if w_init is None else w_init
